@@ -8,11 +8,18 @@ Open Scope N_scope.
 Lemma le_enc_length n x : length (le_enc n x) = n.
 Proof. revert x; induction n as [|k IH]; intros x; cbn [le_enc length]; auto. Qed.
 
+Lemma land255 x : N.land x 255 = x mod 256.
+Proof. change 255 with (N.ones 8). rewrite N.land_ones. reflexivity. Qed.
+Lemma shiftr8 x : N.shiftr x 8 = x / 256.
+Proof. rewrite N.shiftr_div_pow2. reflexivity. Qed.
+Lemma to_bits_mod w z : to_bits w z = Z.to_N (z mod 2 ^ Z.of_N w).
+Proof. unfold to_bits. rewrite Z.land_ones by apply N2Z.is_nonneg. reflexivity. Qed.
+
 Lemma le_dec_enc n x : le_dec (le_enc n x) = x mod 256 ^ N.of_nat n.
 Proof.
   revert x; induction n as [|k IH]; intros x.
   - cbn [le_enc le_dec]. change (256 ^ N.of_nat 0) with 1. now rewrite N.mod_1_r.
-  - cbn [le_enc le_dec]. rewrite IH.
+  - cbn [le_enc le_dec]. rewrite IH, land255, shiftr8.
     rewrite Nat2N.inj_succ, N.pow_succ_r'.
     rewrite N.mod_mul_r by (try apply N.pow_nonzero; discriminate). reflexivity.
 Qed.
@@ -26,12 +33,12 @@ Qed.
 Lemma le_enc_byte n x : Forall (fun b => b < 256) (le_enc n x).
 Proof.
   revert x; induction n as [|k IH]; intros x; cbn [le_enc]; constructor; auto.
-  apply N.mod_lt. discriminate.
+  rewrite land255. apply N.mod_lt. discriminate.
 Qed.
 
 Lemma of_to_bits64 z : i64_ok z -> of_bits 64 (to_bits 64 z) = z.
 Proof.
-  unfold i64_ok, of_bits, to_bits. intros Hz.
+  rewrite to_bits_mod. unfold i64_ok, of_bits. intros Hz.
   change (Z.of_N 64) with 64%Z. change (2 ^ (64 - 1)) with 9223372036854775808.
   change (2 ^ 63)%Z with 9223372036854775808%Z in Hz.
   change (2 ^ 64)%Z with 18446744073709551616%Z.
@@ -48,7 +55,7 @@ Qed.
 
 Lemma to_bits64_lt z : to_bits 64 z < 2 ^ 64.
 Proof.
-  unfold to_bits. change (Z.of_N 64) with 64%Z.
+  rewrite to_bits_mod. change (Z.of_N 64) with 64%Z.
   change (2 ^ 64)%Z with 18446744073709551616%Z. change (2 ^ 64) with 18446744073709551616.
   assert (Hm : (0 <= z mod 18446744073709551616 < 18446744073709551616)%Z) by (apply Z.mod_pos_bound; lia).
   lia.
@@ -121,6 +128,22 @@ Lemma read_items_fuel {A} (rd : list N -> fres (A * list N)) :
 Proof.
   intros Hdec Hno. induction fuel as [|f IH]; intros count s Hlen; [lia|].
   cbn [read_items]. destruct (count =? 0); [discriminate|].
+  destruct (rd s) as [[x s1]| | |] eqn:E; try discriminate.
+  - apply Hdec in E.
+    specialize (IH (count - 1) s1 ltac:(lia)).
+    destruct (read_items f (count - 1) rd s1) as [[xs s2]| | |]; try discriminate. congruence.
+  - now apply Hno in E.
+Qed.
+
+(* fuel that exceeds the remaining bytes OR the count suffices *)
+Lemma read_items_fuel2 {A} (rd : list N -> fres (A * list N)) :
+  (forall s x s1, rd s = FOk (x, s1) -> (length s1 < length s)%nat) ->
+  (forall s, rd s <> FOutOfFuel) ->
+  forall fuel count s, ((length s < fuel)%nat \/ count < N.of_nat fuel) ->
+    read_items fuel count rd s <> FOutOfFuel.
+Proof.
+  intros Hdec Hno. induction fuel as [|f IH]; intros count s Hlen; [lia|].
+  cbn [read_items]. destruct (N.eqb_spec count 0) as [|Hc]; [discriminate|].
   destruct (rd s) as [[x s1]| | |] eqn:E; try discriminate.
   - apply Hdec in E.
     specialize (IH (count - 1) s1 ltac:(lia)).
